@@ -2600,17 +2600,20 @@ class Recipe:
                     if step.trash:
                         flows["out"] += sum(map(helper, step.trash.items()))
                     else:
-                        vfunc = np.vectorize(plate_helper)
+                        vfunc = np.vectorize(plate_helper, otypes=[float])
                         flows["in"] += vfunc(step.to[1].wells) - vfunc(step.to[0].wells)
                 if isinstance(step.frm[0], Container) and step.frm[0].name == container.name:
                     flows["out"] += (sum(map(helper, step.frm[0].contents.items())) -
                                      sum(map(helper, step.frm[1].contents.items())))
                 if isinstance(step.frm[0], Plate) and step.frm[0].name == container.name:
-                    vfunc = np.vectorize(plate_helper)
+                    vfunc = np.vectorize(plate_helper, otypes=[float])
                     flows["out"] += vfunc(step.frm[0].wells) - vfunc(step.frm[1].wells)
         precision = config.precisions[unit] if unit in config.precisions else config.precisions['default']
         for key in flows:
-            flows[key] = round(flows[key], precision)
+            if isinstance(flows[key], np.ndarray):
+                flows[key] = np.round(flows[key], precision)
+            else:
+                flows[key] = round(flows[key], precision)
 
         return flows
 
@@ -2631,7 +2634,7 @@ class Recipe:
                 entry = container.contents.items()
                 return sum(map(conversion_helper, entry))
             elif isinstance(container, Plate):
-                vfunc = np.vectorize(plate_helper)
+                vfunc = np.vectorize(plate_helper, otypes=[float])
                 return vfunc(container.wells)
 
         if unit is None:
